@@ -65,6 +65,27 @@ def run(ck):
             cid = len(cases) + 1
             cases.append({"id": cid, "pid": p["id"], "src": p["src"], "inputs": p.get("inputs", []), "mods": p.get("mods", []), "budget": b})
     r1 = vlib.run_cases(ck, "alloctrace", cases, nproc=8)
+    # one VM object run three times: every run has the whole budget (programs without inputs, so that the runs are independent)
+    reuse = []
+    for p in progs:
+        m = meta.get(p["id"])
+        if m and m["A"] is not None and m["unlimited"]["end"] == "ok" and not p.get("inputs") and len(reuse) < (150 if quick else 3000):
+            for b in (m["A"], m["A"] + 1, max(m["A"] - 1, 0)):
+                reuse.append({"id": len(reuse) + 1, "pid": p["id"], "src": p["src"], "inputs": [], "mods": p.get("mods", []), "budget": b, "runs": 3, "A": m["A"]})
+    rr = vlib.run_cases(ck, "vmreuse", reuse, nproc=8)
+    for c in reuse:
+        o = rr[c["id"]]
+        ck.evaluations += 1
+        want = "ok" if c["budget"] >= c["A"] else "alloc_limit"
+        ends = o.get("ends")
+        if ends is None:
+            continue
+        if any(e != want for e in ends):
+            ck.violation("budget-per-run", "a VM with budget %d (the program makes %d tracked allocations) run %d times ended with %s; every run should end with %s\n%s" % (
+                c["budget"], c["A"], c["runs"], ends, want, c["src"]), {"program": {"src": c["src"]}, "budget": c["budget"], "A": c["A"], "ends": ends})
+        else:
+            ck.traces += 1
+    ck.extra["vm_reuse_cases"] = len(reuse)
     traces = []
     for p in progs:
         if p["id"] in meta:
